@@ -20,7 +20,7 @@ import ast
 
 from .. import kinds
 from ..facts import UNKNOWN, call_name, kwarg, norm
-from ..util import is_call_named
+from ..util import expand_locals, is_call_named
 from .c01 import _kind_verdict
 
 RUST_LINTERS = {
@@ -128,8 +128,11 @@ def check(run, ctx):
         ctor = [c for c in ast.walk(m.tree) if isinstance(c, ast.Call) and call_name(c) == rec]
         run.require(len(ctor) == 1, f"{pkg}: expected one {rec}(...) construction")
         c = ctor[0]
-        it = kwarg(c, "is_in_test")
-        line, col = kwarg(c, "line"), kwarg(c, "column")
+        owner = next((f_ for f_ in repo.funcs.values() if f_.module is m and f_.parent is None and any(x is c for x in ast.walk(f_.node))), None)
+        run.require(owner is not None, f"{pkg}: the {rec}(...) construction is not inside a function")
+        # locals such as `row, column = node.start_point[0], node.start_point[1]` are expanded before comparing
+        it = expand_locals(owner.node, kwarg(c, "is_in_test"))
+        line, col = expand_locals(owner.node, kwarg(c, "line")), expand_locals(owner.node, kwarg(c, "column"))
         node_name = it.args[0].id if isinstance(it, ast.Call) and call_name(it) == "is_inside_test" and it.args and isinstance(it.args[0], ast.Name) else None
         if node_name:
             run.ok(R3, f"{pkg} is_in_test", f"self.is_inside_test({node_name})")
